@@ -649,6 +649,15 @@ def check(ctx):
     # instance is placed again)
     from . import c10
     c10.restart_repair(ctx, 'C04.1')
+    # shared with C01.3 / C05.2: an instance stops being placed only through
+    # Server.remove (the one named exception: its server left the cell), and
+    # it leaves the cell only after it was taken off its server - otherwise
+    # the counters of server, rack and cell keep counting it
+    from . import c01, c05
+    _nz1, srv1, _n1, put1, rem1, _p1 = c01._roles(ctx)
+    with ctx.shared({'C01': 'C04.1', 'C05': 'C04.1'}):
+        c01._owner(ctx, srv1, put1, rem1)
+        c05._model_removal(ctx, removal_rule='C04.1')
 
 
 _S = 'lib/python/treadmill/scheduler/__init__.py'
